@@ -436,3 +436,80 @@ def asin_over_x_series(R, eps_bits=200):
             break
     tail = _geom_tail(t, R * R)
     return Series(Poly(c), tail, R)
+
+
+def sinh_over_x_series(R, eps_bits=200):
+    """sinh(x)/x = sum x^(2k)/(2k+1)!"""
+    R = Fr(R)
+    c, k = [], 0
+    f = 1
+    while True:
+        c += [Fr(1, f), 0]
+        k += 1
+        f *= (2 * k) * (2 * k + 1)
+        t = R ** (2 * k) / f
+        if t < Fr(1, 1 << eps_bits) and R * R / ((2 * k + 2) * (2 * k + 3)) < Fr(1, 2):
+            break
+    return Series(Poly(c), _geom_tail(t, R * R / ((2 * k + 2) * (2 * k + 3))), R)
+
+
+def cosh_series(R, eps_bits=200):
+    R = Fr(R)
+    c, k = [], 0
+    f = 1
+    while True:
+        c += [Fr(1, f), 0]
+        k += 1
+        f *= (2 * k - 1) * (2 * k)
+        t = R ** (2 * k) / f
+        if t < Fr(1, 1 << eps_bits) and R * R / ((2 * k + 1) * (2 * k + 2)) < Fr(1, 2):
+            break
+    return Series(Poly(c), _geom_tail(t, R * R / ((2 * k + 1) * (2 * k + 2))), R)
+
+
+def asinh_over_x_series(R, eps_bits=200):
+    """asinh(x)/x = sum (-1)^k (2k)!/(4^k (k!)^2 (2k+1)) x^(2k), |x| <= R < 1"""
+    R = Fr(R)
+    assert R < 1
+    c, k = [], 0
+    a = Fr(1)
+    while True:
+        c += [a / (2 * k + 1) * (-1) ** k, 0]
+        k += 1
+        a = a * (2 * k - 1) / (2 * k)
+        t = a / (2 * k + 1) * R ** (2 * k)
+        if t < Fr(1, 1 << eps_bits):
+            break
+    return Series(Poly(c), _geom_tail(t, R * R), R)
+
+
+def atanh_over_x_series(R, eps_bits=200):
+    """atanh(x)/x = sum x^(2k)/(2k+1), |x| <= R < 1"""
+    R = Fr(R)
+    assert R < 1
+    c, k = [], 0
+    while True:
+        c += [Fr(1, 2 * k + 1), 0]
+        k += 1
+        t = R ** (2 * k) / (2 * k + 1)
+        if t < Fr(1, 1 << eps_bits):
+            break
+    return Series(Poly(c), _geom_tail(t, R * R), R)
+
+
+def erf_over_x_series(R, eps_bits=200):
+    """erf(x)/x = (2/sqrt(pi)) sum (-1)^k x^(2k)/(k! (2k+1)); coefficients are intervals"""
+    R = Fr(R)
+    p_ = pi()
+    s_lo, s_hi = sqrt_qi(p_.lof()), sqrt_qi(p_.hif())
+    two_over = QI(2) / QI(s_lo.lo, s_hi.hi, True)
+    c, k = [], 0
+    f = 1
+    while True:
+        c += [two_over * Fr((-1) ** k, f * (2 * k + 1)), 0]
+        k += 1
+        f *= k
+        t = R ** (2 * k) / (f * (2 * k + 1))
+        if t < Fr(1, 1 << eps_bits) and R * R / (k + 1) < Fr(1, 2):
+            break
+    return Series(Poly(c), _geom_tail(t * 2, R * R / (k + 1)), R)
